@@ -8,4 +8,5 @@ import (
 	_ "verif/harness/checks/c04"
 	_ "verif/harness/checks/c09"
 	_ "verif/harness/checks/c10"
+	_ "verif/harness/checks/c16"
 )
